@@ -1,0 +1,22 @@
+//! Verification hooks, compiled only with `--cfg genmeta_gm_quic_verif`.
+//!
+//! [`sched_point`] marks a place *between* two lock / atomic regions of a multi-step
+//! waiter / notifier function where a controlled scheduler may switch to another logical
+//! thread. Without an installed handler (or on threads the handler does not know) it does
+//! nothing.
+use std::sync::OnceLock;
+
+static HANDLER: OnceLock<fn(&'static str)> = OnceLock::new();
+
+/// Install the process-wide handler (first call wins).
+pub fn install_sched_handler(handler: fn(&'static str)) {
+    let _ = HANDLER.set(handler);
+}
+
+/// A possible pre-emption point. Never call this while holding a lock.
+#[inline]
+pub fn sched_point(label: &'static str) {
+    if let Some(handler) = HANDLER.get() {
+        handler(label);
+    }
+}
